@@ -6,6 +6,8 @@ TARGETS = {
     # (d): run-time assembled vs compile-time typed solvers, bitwise
     "c14_equiv_amg": dict(src="props/c14_equiv_amg.cpp", flavors=["gcc"]),
     "c14_equiv_solver": dict(src="props/c14_equiv_solver.cpp", flavors=["gcc"]),
+    # (d, distributed): runtime::mpi wrappers vs typed amgcl::mpi components, bitwise on every rank, 1..4 ranks (6 thorough)
+    "c14_equiv_mpi": dict(src="mpi/c14_equiv_mpi.cpp", flavors=["mpi"], run_flavors=["mpi"], ranks=[1, 2, 3, 4], ranks_thorough=[1, 2, 3, 4, 6]),
     # (e): compile probes; a probe that does not compile IS the violation. When they compile their props run too.
     "c14_probe_make_solver": dict(src="props/c14_probe_make_solver.cpp", **_PROBE),
     "c14_probe_amg": dict(src="props/c14_probe_amg.cpp", **_PROBE),
@@ -15,7 +17,7 @@ TARGETS = {
 
 PROPS = {
     "C14": dict(
-        targets=["c14_params", "c14_equiv_amg", "c14_equiv_solver", "c14_probe_make_solver", "c14_probe_amg", "c14_probe_deflated", "c14_probe_ilut"],
+        targets=["c14_params", "c14_equiv_amg", "c14_equiv_solver", "c14_equiv_mpi", "c14_probe_make_solver", "c14_probe_amg", "c14_probe_deflated", "c14_probe_ilut"],
         shard_mult={"quick": 6},
         level="exploration",
         rule="props/c14_components.hpp lists every params struct of the serial library with its fields (key, C++ type from the member pointer, value class). "
@@ -26,6 +28,9 @@ PROPS = {
              "Run-time wrappers: the component selected by 'type' holds the same typed params as Component::params(tree). Invalid enumeration strings (typos, other family, case, number, empty) must throw. "
              "Equivalence: SPD M-matrix systems n=50..400 (gen_graph+gen_mmat), 1 thread, coarse_enough 2..25; 4 coarsenings x spai0, 9 relaxations x smoothed_aggregation (amg<runtime> + runtime solver vs typed + cg), "
              "9 solver types x amg<sa,spai0> and precond classes amg/relaxation/dummy/nested (runtime::preconditioner vs typed): (iters, resid, x) bitwise identical, unknown keys injected into the run-time tree are reported. "
+             "Distributed equivalence (mpi/c14_equiv_mpi.cpp, 1..4 ranks, generated contiguous partitions incl. empty ranks, variable-coefficient M-matrices): mpi::make_solver<mpi::amg<runtime coarsening, runtime relaxation, "
+             "runtime direct solver, runtime partitioner>, runtime solver> vs the typed mpi::amg<C,R> + typed solver for 2 coarsenings x 8 relaxations x 3 solvers with generated hierarchy / coarsening / relaxation / solver / "
+             "repartition parameters: preconditioner application, iterations, residual and solution bitwise identical on every rank. "
              "non-trivial: >=3 non-default fields or an extra key (table/wrappers); >=3 non-default fields, no exception and >=2 levels for amg (equivalence). "
              "distinct = distinct decoded choice sequences (64-bit hash), united over shards.",
         assumptions=["the table in props/c14_components.hpp is complete: a parameter that is missing from the struct's import list AND export list AND the table is not seen (export keys outside the table are reported as 'harness table outdated')",
